@@ -22,6 +22,21 @@ def gen_cases(rng, tier):
                 lo = nops
             ops = rdflat.gen_history(rng, members, eof, lo)
             cases.append(dict(members=members, eof=eof, rd=rd, ops=ops))
+    # read-ahead held back by the gated underlying reader: back-to-back Seeks while the
+    # previous redirect is still pending in bg.control, then reads across blocks
+    for k in range(10 if tier == 'quick' else 150):
+        members, eof = rdflat.gen_file(rng, nmax=6, big=0.0)
+        nb = len(members) + (1 if eof else 0)
+        ops = []
+        for _ in range(rng.randrange(6, 16)):
+            for _ in range(rng.randrange(1, 4)):
+                i = rng.randrange(nb)
+                ln = members[i][0] if i < len(members) else 0
+                ops.append(['seek', i, rng.choice([0, ln, rng.randrange(0, ln + 1)])])
+            ops.append(rng.choice([['read', rng.randrange(0, 60)], ['byte'], ['read', 0]]))
+        mode = rng.choice(['lazy', 'lazy', 'mixed'])
+        cases.append(dict(members=members, eof=eof, rd=rng.choice([2, 2, 3, 4]), ops=ops, gate=True,
+                          budget=[0 if mode == 'lazy' else rng.choice([0, 0, 1, 3]) for _ in ops]))
     # one member of every boundary size, read through in one go and byte-wise at the end
     for ln in rdflat.BIG + [0, 1, 2]:
         members = [[3, 5], [ln, 11], [2, 7]]
@@ -43,7 +58,7 @@ def corpus(pid):
 
 
 def tag_of(c):
-    return 'rd1' if c['rd'] == 1 else 'async'
+    return 'rd1' if c['rd'] == 1 else ('async-gated' if c.get('gate') else 'async')
 
 
 def run(res, rng, tier):
